@@ -18,6 +18,13 @@ macro_rules! any_g {
         macro_rules! map_g_res {
             ($g:expr, $x:ident => $e:expr) => { match $g { $(AnyG::$v($x) => ($e).map(AnyG::$v)),* } };
         }
+        /// `g.merge(h, l, r)` when both have the same `N`; `None` otherwise
+        fn merge_any(g: &mut AnyG, h: &AnyG, l: usize, r: usize) -> Option<Result<(), String>> {
+            match (g, h) {
+                $((AnyG::$v(x), AnyG::$v(y)) => Some(x.merge(y, l, r).map_err(|e| e.to_string())),)*
+                _ => None,
+            }
+        }
         fn new_g(n: usize, cap: usize) -> Option<AnyG> {
             match n { $($n => Some(AnyG::$v(Sodg::empty(cap))),)* _ => None }
         }
@@ -507,6 +514,71 @@ impl World {
                         }
                     }
                 }
+            }
+            ["slice", a, v, b, rej] => {
+                let (Some(a), Ok(v), Some(b)) = (parse_handle(a), v.parse::<usize>(), parse_handle(b)) else { return "bad-op".into() };
+                let mut table: Vec<(usize, usize, Label)> = vec![];
+                if *rej != "-" {
+                    for t in rej.split(',') {
+                        let p: Vec<&str> = t.split('>').collect();
+                        let (Some(x), Some(y), Some(l)) = (p.first().and_then(|s| s.parse().ok()), p.get(1).and_then(|s| s.parse().ok()), p.get(2).and_then(|s| parse_label_tok(s))) else { return "bad-op".into() };
+                        table.push((x, y, l));
+                    }
+                }
+                match self.hs.get(&a) {
+                    None => "bad-op".into(),
+                    Some(HS::Dead) => {
+                        self.hs.insert(b, HS::Dead);
+                        "dead".into()
+                    }
+                    Some(HS::Live(g)) => {
+                        let r = guard(|| map_g_res!(g, x => if table.is_empty() { x.slice(v) } else { x.slice_some(v, |f, t, l| !table.contains(&(f, t, l))) }.map_err(|e| e.to_string())));
+                        match r {
+                            Some(Ok(c)) => {
+                                let k = keys_of(&c);
+                                self.hs.insert(b, HS::Live(c));
+                                format!("ok ; {k}")
+                            }
+                            Some(Err(_)) => {
+                                self.hs.insert(b, HS::Dead);
+                                "err".into()
+                            }
+                            None => {
+                                self.hs.insert(b, HS::Dead);
+                                "panic".into()
+                            }
+                        }
+                    }
+                }
+            }
+            ["merge", a, b, l, r] => {
+                let (Some(a), Some(b), Ok(l), Ok(r)) = (parse_handle(a), parse_handle(b), l.parse::<usize>(), r.parse::<usize>()) else { return "bad-op".into() };
+                if a == b {
+                    return "bad-op".into();
+                }
+                let Some(right) = self.hs.remove(&b) else { return "bad-op".into() };
+                let out = match (self.hs.get_mut(&a), &right) {
+                    (None, _) => "bad-op".to_string(),
+                    (Some(HS::Dead), _) | (_, HS::Dead) => "dead".to_string(),
+                    (Some(HS::Live(g)), HS::Live(h)) => {
+                        let res = guard(|| merge_any(g, h, l, r));
+                        match res {
+                            Some(Some(Ok(()))) => format!("ok ; {}", keys_of(g)),
+                            Some(Some(Err(msg))) => {
+                                // "... {n} missed: νa, νb"
+                                let ids: Vec<usize> = msg.rsplit("missed: ").next().unwrap_or("").split(", ").filter_map(|t| t.trim().strip_prefix('ν').and_then(|x| x.parse().ok())).collect();
+                                format!("err {} ; {}", show_nats(&ids), keys_of(g))
+                            }
+                            Some(None) => "bad-op".to_string(),
+                            None => {
+                                self.hs.insert(a, HS::Dead);
+                                "panic".to_string()
+                            }
+                        }
+                    }
+                };
+                self.hs.insert(b, right);
+                out
             }
             ["save", a] => {
                 let Some(a) = parse_handle(a) else { return "bad-op".into() };
